@@ -16,6 +16,9 @@ CFGS = {
                PullRetry=-1, PullAuto=-1, PullEnabled=True),
     "P3": dict(RtmpPubs=["p1", "p2"], RtspPubs=[], CustPubs=[], PsPubs=[], RtmpSubs=["s1"], FlvSubs=[],
                PullRetry=0, PullAuto=0, PullEnabled=True, Hook=False),
+    # C16: every output enabled (HLS, HTTP-TS, FLV + TS recording, hook), inputs of every kind, shutdown
+    "F1": dict(RtmpPubs=["p1", "p2"], RtspPubs=[], CustPubs=["k1"], PsPubs=["g1"], RtmpSubs=["s1"], FlvSubs=[],
+               PullRetry=0, PullAuto=-1, PullEnabled=False, Outputs=True, Shutdown=True),
     "L2": dict(RtmpPubs=["p1"], RtspPubs=[], CustPubs=["k1"], PsPubs=["g1"], RtmpSubs=[], FlvSubs=["f1"],
                PullRetry=0, PullAuto=-1, PullEnabled=False),
 }
@@ -34,6 +37,10 @@ def write_cfg(cid, mode, max_tick, max_att):
         lines.append("  %s %s" % (k, ("<- Neg1" if c[k] == -1 else "= %d" % c[k])))
     lines.append("  PullEnabled = %s" % ("TRUE" if c["PullEnabled"] else "FALSE"))
     lines.append("  HookOn = %s" % ("TRUE" if c.get("Hook", True) else "FALSE"))
+    lines.append("  ShutdownEnabled = %s" % ("TRUE" if c.get("Shutdown", False) else "FALSE"))
+    lines.append("  ProbeMsgs = %d" % (2 if c.get("Outputs", False) else 1))
+    if mode == "trace":
+        lines.append("  PipeComps <- %s" % ("PipeAll" if c.get("Outputs", False) else ("PipeHook" if c.get("Hook", True) else "PipeNone")))
     lines.append("  MaxTick = %d" % max_tick)
     lines.append("  MaxAttempts = %d" % max_att)
     lines.append("INVARIANTS " + INVS)
@@ -57,7 +64,7 @@ def drv_cfg(cid):
     c = CFGS[cid]
     return {"rtmpPubs": c["RtmpPubs"], "rtspPubs": c["RtspPubs"], "custPubs": c["CustPubs"], "psPubs": c["PsPubs"],
             "rtmpSubs": c["RtmpSubs"], "flvSubs": c["FlvSubs"], "pullRetry": c["PullRetry"],
-            "pullAutoMs": (-1 if c["PullAuto"] < 0 else c["PullAuto"] * 700), "hook": c.get("Hook", True)}
+            "pullAutoMs": (-1 if c["PullAuto"] < 0 else c["PullAuto"] * 700), "hook": c.get("Hook", True), "outputs": c.get("Outputs", False), "leak": 0}
 
 
 def signature(r):
@@ -69,14 +76,14 @@ def signature(r):
                                            (":after_" + kinds) if kinds else "")
 
 
-def run_lifecycle(ctx, bfs, emit, sim):
+def run_lifecycle(ctx, bfs, emit, sim, leak=None):
     """bfs/emit: lists of (cid, max_tick, max_att); sim: (cid, max_tick, max_att, num, depth)."""
     E.build_harness(ctx)
     scen = []
 
     def add(cid, steps):
         st = [{"name": a["name"], "x": a.get("x", ""), "expAttempts": a.get("obs", {}).get("attempts", 0),
-               "expNotif": len(a.get("obs", {}).get("notif", []))} for a in steps]
+               "expNotif": len(a.get("obs", {}).get("notif", []))} for a in steps if a["name"] != "Halt"]
         scen.append({"sc": len(scen), "cfg": drv_cfg(cid), "cfgId": cid, "steps": st})
 
     for (cid, mt, ma) in bfs:
@@ -103,7 +110,12 @@ def run_lifecycle(ctx, bfs, emit, sim):
         ctx.log("simulate %s: %d behaviours" % (cid, len(bs)))
         for b in bs:
             add(cid, b)
-    sp, tp = ctx.path("scen.ndjson"), ctx.path("trace.ndjson")
+    if leak:
+        cid, n = leak
+        c = drv_cfg(cid)
+        c["leak"] = n
+        scen.append({"sc": len(scen), "cfg": c, "cfgId": cid, "steps": []})
+    sp, tp = ctx.path("lc-scen.ndjson"), ctx.path("lc-trace.ndjson")
     E.write_ndjson(sp, scen)
     E.run_driver(ctx, "lifecycle", sp, tp, timeout=3000)
     rows = E.read_ndjson(tp)
